@@ -273,10 +273,7 @@ def splitLines : List Nat → List (List Nat)
       if c == 10 then [] :: splitLines cs
       else match splitLines cs with
         | [] => [[c]]
-        | l :: ls =>
-            -- `cs` non-empty and not starting a new line: extend its first line; but an empty
-            -- `cs` gives `[]`, handled above
-            (c :: l) :: ls
+        | l :: ls => (c :: l) :: ls        -- `c` extends the first line of the rest
 
 /-- `line.split(':', 1)`: none if there is no colon -/
 def splitColon : List Nat → Option (List Nat × List Nat)
